@@ -640,6 +640,9 @@ func (s *Session) evalCall(se *SpecEnv, x *SCall) Val {
 			if v.Typ != nil {
 				switch ut := v.Typ.Underlying().(type) {
 				case *types.Slice:
+					if s.noDefine == 0 {
+						s.assume(Ge(v.L[2], I(0))) // lengths are never negative
+					}
 					return untypedInt(v.L[2])
 				case *types.Basic:
 					return untypedInt(s.strlen(v.T0()))
@@ -907,6 +910,19 @@ func (s *Session) evalCall(se *SpecEnv, x *SCall) Val {
 				args = append(args, intLeaves(s.materialize(s.evalSpec(se, a)).L)...)
 			}
 			return scalar(types.NewPointer(tt), s.uf("spec:"+name, SInt, args...))
+		case "fresharray": // fresharray(s): the backing array of slice s did not exist in the old state (or s is the nil slice)
+			v := s.evalSpec(se, x.Args[0])
+			if len(v.L) != 3 {
+				specFail("fresharray() on a non-slice")
+			}
+			return boolVal(Or(And(Eq(v.L[2], I(0)), Eq(v.L[0], I(0))), Gt(v.L[0], se.old.Top)))
+		case "samearray": // samearray(a, b): slices a and b are windows of one backing array
+			a := s.evalSpec(se, x.Args[0])
+			b := s.evalSpec(se, x.Args[1])
+			if len(a.L) != 3 || len(b.L) != 3 {
+				specFail("samearray() on a non-slice")
+			}
+			return boolVal(Eq(a.L[0], b.L[0]))
 		case "runmode": // runmode("M"): the function under proof is being verified in contract mode M
 			return boolVal(B(s.runMode == x.Args[0].(*SStr).V))
 		case "ufcast": // ufcast(e, T): the integer e seen as a *T reference
